@@ -19,8 +19,11 @@ import (
 
 	ipns "github.com/ipfs/go-ipns"
 	libp2p "github.com/libp2p/go-libp2p"
+	"github.com/libp2p/go-libp2p-core/control"
 	crypto "github.com/libp2p/go-libp2p-core/crypto"
 	host "github.com/libp2p/go-libp2p-core/host"
+	"github.com/libp2p/go-libp2p-core/network"
+	peer "github.com/libp2p/go-libp2p-core/peer"
 	rpc "github.com/libp2p/go-libp2p-gorpc"
 	dht "github.com/libp2p/go-libp2p-kad-dht"
 	dual "github.com/libp2p/go-libp2p-kad-dht/dual"
@@ -28,8 +31,22 @@ import (
 	record "github.com/libp2p/go-libp2p-record"
 	routedhost "github.com/libp2p/go-libp2p/p2p/host/routed"
 
+	ma "github.com/multiformats/go-multiaddr"
+
 	"verifharness/common"
 )
+
+// blockGater is a libp2p connection gater refusing every connection with the listed peers
+// (a follower that cannot reach / be reached by a given peer).
+type blockGater struct{ blocked map[peer.ID]bool }
+
+func (g *blockGater) InterceptPeerDial(p peer.ID) bool                { return !g.blocked[p] }
+func (g *blockGater) InterceptAddrDial(p peer.ID, _ ma.Multiaddr) bool { return !g.blocked[p] }
+func (g *blockGater) InterceptAccept(network.ConnMultiaddrs) bool     { return true }
+func (g *blockGater) InterceptSecured(_ network.Direction, p peer.ID, _ network.ConnMultiaddrs) bool {
+	return !g.blocked[p]
+}
+func (g *blockGater) InterceptUpgraded(network.Conn) (bool, control.DisconnectReason) { return true, 0 }
 
 // valTable names the stored contents of the pins of one case by small integers
 // whose numeric order is the byte order of their protobuf encodings.
@@ -142,6 +159,7 @@ type peerCfg struct {
 	rebcast   time.Duration
 	idOf      func(int) string // identity seed of peer i (for trusted)
 	clusterNm string
+	blocked   []int // peers this host refuses any connection with
 }
 
 func privKey(seed string) crypto.PrivKey {
@@ -156,6 +174,17 @@ func privKey(seed string) crypto.PrivKey {
 func newPeer(pc peerCfg, vt *valTable) (*cpeer, error) {
 	ctx, cancel := context.WithCancel(context.Background())
 	opts := []libp2p.Option{libp2p.Identity(privKey(pc.seed))}
+	if len(pc.blocked) > 0 {
+		g := &blockGater{blocked: map[peer.ID]bool{}}
+		for _, b := range pc.blocked {
+			id, err := peerIDOf(pc.idOf(b))
+			if err != nil {
+				panic(err)
+			}
+			g.blocked[id] = true
+		}
+		opts = append(opts, libp2p.ConnectionGater(g))
+	}
 	if pc.listen {
 		opts = append(opts, libp2p.ListenAddrStrings("/ip4/127.0.0.1/tcp/0"))
 	} else {
